@@ -949,6 +949,7 @@ Inductive pop :=
 | PRaise
 | PShutter (state : string)
 | PInstr (i : instr)
+| PLine (l : line) (i : instr)                 (* G.instruction(<text l>): a raw line that reads as the instruction i *)
 | PRepeat (n : option Z) (body : list pop)
 | PFor (var : option string) (n : option Z) (body : list pop)
 | PAxisRot (angle : option Q) (body : list pop).
@@ -993,6 +994,7 @@ Fixpoint abs_op (o : pop) : op :=
   | PRaise => ORaise
   | PShutter s => OShutter (on_of s)
   | PInstr i => OInstr i
+  | PLine _ i => OInstr i
   | PRepeat n b => ORepeat n ((fix al (l : list pop) : list op := match l with [] => [] | x :: r => abs_op x :: al r end) b)
   | PFor v n b => OFor (option_map ivar v) n ((fix al (l : list pop) : list op := match l with [] => [] | x :: r => abs_op x :: al r end) b)
   | PAxisRot a b => OAxisRot (negb (is_none a)) ((fix al (l : list pop) : list op := match l with [] => [] | x :: r => abs_op x :: al r end) b)
@@ -1002,6 +1004,7 @@ Fixpoint wf_pop (o : pop) : Prop :=
   match o with
   | PLoad f _ | PRemove f _ | PFarcall f | PBuffered f _ => wfp f
   | PShutter s => st_of s <> None
+  | PLine l i => tok_of_line (if py_endswith l nl then l else l ++ [PL nl]) = [instr_tok i]
   | PRepeat _ b | PFor _ _ b | PAxisRot _ b =>
       (fix all (l : list pop) : Prop := match l with [] => True | x :: r => wf_pop x /\ all r end) b
   | _ => True
@@ -1028,6 +1031,7 @@ Fixpoint src_exec (o : pop) : MP unit :=
   | PRaise => raise EUser
   | PShutter s => src_shutter pc (Some s)
   | PInstr i => src_instruction pc [PRaw (instr_tok i)]
+  | PLine l _ => src_instruction pc l
   | PRepeat n b => src_repeat pc n ((fix el (l : list pop) : MP unit := match l with [] => ret tt | x :: r => src_exec x ;;; el r end) b)
   | PFor v n b => src_for_loop pc v n ((fix el (l : list pop) : MP unit := match l with [] => ret tt | x :: r => src_exec x ;;; el r end) b)
   | PAxisRot a b => src_axis_rotation pc a ((fix el (l : list pop) : MP unit := match l with [] => ret tt | x :: r => src_exec x ;;; el r end) b)
@@ -1090,6 +1094,9 @@ Proof.
       apply (Sim_ext _ (h_shutter (abs_cfg pc) on)); [|apply Sim_shutter; assumption].
       intros st. unfold h_shutter. destruct (do_shutter _ _ _). reflexivity.
     + apply Sim_raw.
+    + cbn [wf_pop] in Hw. unfold src_instruction.
+      apply (Sim_ext _ (fun st => seq (st, [SI (instr_tok i)], Ok) (fun st => (st, [], Ok)))); [reflexivity|].
+      destruct (py_endswith l nl); (apply Sim_bind; [apply Sim_append; exact Hw|intros _; apply Sim_ret]).
   - intros n b Hb Hw. cbn [src_exec abs_op wf_pop] in *. rewrite abs_fix, src_fix.
     apply (Sim_ext _ _ _ (fun st => eq_sym (exec_repeat (abs_cfg pc) n (map abs_op b) st))).
     apply Sim_repeat. apply Sim_exec_list; [exact Hb|apply wf_pop_list, Hw].
@@ -1228,4 +1235,17 @@ Lemma Rel_abs : forall s, inv s -> Rel s (abs_st s).
 Proof. intros s [H1 H2]. constructor; try reflexivity; assumption. Qed.
 Lemma Rel_inv : forall s st, Rel s st -> inv s.
 Proof. intros s st H. split; [exact (r_canon _ _ H)|exact (r_low _ _ H)]. Qed.
+(* ---- sequencing lemmas of the model, used by the writer ties ---- *)
+Lemma seq_ret_r : forall r, seq r (fun st => (st, [], Ok)) = r.
+Proof. intros [[st e] [|k]]; cbn; [now rewrite app_nil_r|reflexivity]. Qed.
+
+Lemma exec_list_app : forall c a b st, exec_list c (a ++ b) st = seq (exec_list c a st) (exec_list c b).
+Proof.
+  intros c a. induction a as [|o a IH]; intros b st; cbn [app exec_list].
+  - unfold seq. cbn [exec_list]. destruct (exec_list c b st) as [[st2 e2] o2]. reflexivity.
+  - destruct (exec c o st) as [[st1 e1] [|k]]; [|reflexivity].
+    unfold seq. rewrite IH. unfold seq. destruct (exec_list c a st1) as [[st2 e2] [|k2]]; [|reflexivity].
+    destruct (exec_list c b st2) as [[st3 e3] o3]. now rewrite app_assoc.
+Qed.
+
 End Equiv.
